@@ -218,8 +218,19 @@ func c18History(r *rand.Rand, n int) Case {
 func init() {
 	register(&Prop{
 		ID:   "C18",
-		Rule: "histories of 1-25 steps over 3 names (so re-adds occur) and 3 tags: AddDocument / AddDocumentFromReader (YAML) / AddUnnamedDocument with options in {none, WithTags, MergeTags, MustCreate}, given in random order (the same tags also split over two WithTags), interleaved with TaggedSubset(ts) (incl. '*', an unknown tag and the empty request), AsOne() (must equal TaggedSubset('*')), NamedDocument(n) (incl. unknown names). After every step the return status / LayerNames + every layer's content / served document vs the Coq model and vs a Go-side plain reference; no query may panic. Non-trivial: history re-adds a name successfully. Distinct by Gallina term.",
+		Rule: "histories of 1-25 steps over 3 names (so re-adds occur) and 3 tags: AddDocument / AddDocumentFromReader (YAML) / AddUnnamedDocument with options in {none, WithTags, MergeTags, MustCreate}, given in random order (the same tags also split over two WithTags), interleaved with TaggedSubset(ts) (incl. '*', an unknown tag and the empty request), AsOne() (must equal TaggedSubset('*')), NamedDocument(n) (incl. unknown names). After every step the return status / LayerNames + every layer's content / served document vs the Coq model and vs a Go-side plain reference; no query may panic. An eighth of the cases: the pipeline template function mergeFiles over 1-3 YAML files = their ordered append-merge. Non-trivial: history re-adds a name successfully. Distinct by Gallina term.",
 		Gen: func(r *rand.Rand, tier string, idx int) Case {
+			if idx%8 == 7 { // the pipeline template function mergeFiles: a document set of files, merged in order
+				o := defaultOpts()
+				o.keys = c03Keys
+				o.maxDepth = 3
+				o.floats = false
+				var docs []map[string]any
+				for i, n := 0, 1+r.Intn(3); i < n; i++ {
+					docs = append(docs, genDoc(r, o))
+				}
+				return c18MergeFiles(r, idx, docs)
+			}
 			return c18History(r, 1+r.Intn(25))
 		},
 	})
